@@ -400,7 +400,8 @@ def check_finish(tf, fname, res):
     succ_txt = " ; ".join(unparse(st.get("expr") or st.get("init")) for st in after)
     want_tok = "self.%s.push(Token::OuterAttribute(Attribute { src: self.%s[%s.0..%s.0].to_string(), position: %s }))" % (tf.out_field, tf.src_field, start_p, end_p, start_p)
     want_state = "self.%s = %s::%s" % (tf.state_field, tf.state_enum, tf.initial_state)
-    has_tok = any(unparse(st.get("expr")).replace(" ", "") == want_tok.replace(" ", "") for st in after if st["k"] == "ExprStmt")
+    from ..syn import norm_owned_text
+    has_tok = any(norm_owned_text(unparse(st.get("expr"))) == norm_owned_text(want_tok) for st in after if st["k"] == "ExprStmt")
     has_state = any(st["k"] == "ExprStmt" and st["expr"]["k"] == "Assign" and (unparse(st["expr"]["left"]) + " = " + unparse(st["expr"]["right"])).replace(" ", "") == want_state.replace(" ", "") for st in after)
     res.inst("R-C08-table", "finish|success", where(fn), True, "emits OuterAttribute{src[start..end], start} and returns to the initial state: %s" % (has_tok and has_state))
     if not has_tok:
